@@ -237,6 +237,10 @@ class World:
         elif fault == "dir":
             p.unlink()
             p.mkdir()
+        elif fault == "crlf":
+            p.write_bytes(data.replace(b"\r\n", b"\n").replace(b"\n", b"\r\n"))
+        elif fault == "bom":
+            p.write_bytes(b"\xef\xbb\xbf" + data)
         elif fault == "dup_tail":
             i = k % (n + 1)
             p.write_bytes(data + data[i:])
